@@ -19,5 +19,44 @@ target("breezy/log.py::_rebase_merge_depth", params=dict(view_revisions=VR), res
                     c.result == c.old.view_revisions)},
        raises={}, canary=lambda c: c.result == c.old.view_revisions)
 
-undecided("generation of the view revisions over graphs (merge_sort: vcsgraph), revision ranges, per-file filtering, batching adapters")
+# ---- per-file log: the merge stack of _filter_revisions_touching_path (block: the filtering loop). After each revision the stack has
+#      exactly one slot per level down to that revision's depth (slot l: the revision of level l that merges what follows, or None once
+#      it has been listed) - whatever the drop in depth between two consecutive revisions.
+MergeSorted = ufunc("MergeSorted", VR, BOOL)
+assume_note("MergeSorted(v): every depth is >= 0, the first is <= 1 and each is at most one more than the one before it (the order merge_sort "
+            "produces); used through its instance at the loop position (loop hint)")
+
+
+def ms_at(v, i):
+    """the definition of MergeSorted instantiated at position i"""
+    return Implies(And(MergeSorted(v), 0 <= i, i < Len(v)),
+                   And(v[i][2] >= 0, Implies(i == 0, v[i][2] <= 1), Implies(i > 0, v[i][2] <= v[i - 1][2] + 1)))
+
+
+INFO = Tup(BYTES, ANY, INT)
+STACK = Seq(Opt(INFO))
+target("breezy/log.py::_filter_revisions_touching_path", block=(r"current_merge_stack = \[None\]", r"^\s*for info in view_revisions"),
+       params=dict(view_revisions=VR, modified_text_revisions=SetS(BYTES), include_merges=BOOL, result=VR),
+       locals=dict(current_merge_stack=STACK),
+       requires=lambda c: And(Len(c.var("result")) == 0, MergeSorted(c.view_revisions)),
+       loops={2: loop(r"for info in view_revisions", index="i", hints=lambda c: And(ms_at(c.old.view_revisions, c.i), ms_at(c.old.view_revisions, c.i - 1)),
+                      inv=lambda c: And(
+                  MergeSorted(c.view_revisions), c.view_revisions == c.old.view_revisions,
+                  Len(c.current_merge_stack) == If(c.i == 0, 1, c.view_revisions[c.i - 1][2] + 1),
+                  # the deepest slot belongs to the revision just handled (None once it has been listed)
+                  Implies(c.i > 0, Or(c.current_merge_stack[Len(c.current_merge_stack) - 1].is_none,
+                                      c.current_merge_stack[Len(c.current_merge_stack) - 1].val == c.view_revisions[c.i - 1])))),
+              3: loop(r"for idx in range\(len\(current_merge_stack\)\)", lambda c: And(
+                  Len(c.current_merge_stack) == Len(c.pre.current_merge_stack),
+                  Or(c.current_merge_stack[Len(c.current_merge_stack) - 1].is_none,
+                     c.current_merge_stack[Len(c.current_merge_stack) - 1] == c.pre.current_merge_stack[Len(c.current_merge_stack) - 1])))},
+       ensures={"one_slot_per_level_down_to_the_last_revision": lambda c: Len(c.current_merge_stack) == If(
+           Len(c.old.view_revisions) == 0, 1, c.old.view_revisions[Len(c.old.view_revisions) - 1][2] + 1)},
+       raises={}, canary=lambda c: Len(c.current_merge_stack) == 1,
+       equivalent_mutants={r"rev_id in modified_text_revisions|node is not None and|include_merges or node\[2\] == 0":
+                           "WHICH slots are listed is not part of this shape contract: the listing is decided by the bounded oracle "
+                           "(bounded/C25.py, every profile up to length 6 x every modified set)"},
+       note="block: the merge stack is truncated to the current depth however many levels the log drops at once")
+
+undecided("generation of the view revisions over graphs (merge_sort: vcsgraph), revision ranges, batching adapters; per-file filtering: the merge-stack shape is proved, the listing itself is bounded (bounded/C25.py)")
 undecided("reverse_by_depth (recursive, in-place slice assignment): bounded stand-in only (bounded/C25.py)")
